@@ -158,7 +158,8 @@ Theorem c13_message_pointers_valid : forall buf limit w0 ops, writer_new buf lim
            am_ar (areplay am0 ops (rr_outcomes rr)) ++ pseudo (d_w d)) /\
         FLay (d_w d) (mkLay (y_qs yF) (firstn (length (y_rrs yF) - length (pseudo (d_w d))) (y_rrs yF)))
              (areplay am0 ops (rr_outcomes rr)) /\
-        slice b 4 12 = be16 (w_qd (d_w d)) ++ be16 (w_an (d_w d)) ++ be16 (w_ns (d_w d)) ++ be16 (w_ar (d_w d))
+        slice b 4 12 = be16 (w_qd (d_w d)) ++ be16 (w_an (d_w d)) ++ be16 (w_ns (d_w d)) ++ be16 (w_ar (d_w d)) /\
+        agree 4 (w_buf (d_w d)) b
     | None => True
     end.
 Proof. exact run_writer_layout. Qed.
